@@ -170,7 +170,9 @@ func (s *genState) filler() *Expr {
 		return &Expr{K: KPred, Pred: 0}
 	}
 	// a non-consuming element that may be sprinkled into sequences
-	switch k := rapid.IntRange(0, 99).Draw(s.t, "filler"); {
+	switch k := rapid.IntRange(0, 109).Draw(s.t, "filler"); {
+	case k >= 100:
+		return &Expr{K: KEmpty} // "()"
 	case k < 60 || s.p.WPred+s.p.WState == 0:
 		return &Expr{K: KAct, Wrap: s.pct(15, "wrap")}
 	case k < 85 || s.p.WState == 0:
@@ -598,6 +600,12 @@ func WellFormedGrammar(t *rapid.T, p Profile) *Grammar {
 			depth--
 		}
 		var e *Expr
+		if i > 0 && s.pct(3, "emptybody") {
+			// a rule with an empty body matches the empty string
+			s.rules[i] = &Rule{Name: fmt.Sprintf("R%d", i), Body: &Expr{K: KEmpty}}
+			s.ruleMust[i], s.known[i] = false, true
+			continue
+		}
 		if p.RefHeavy && i < s.n-1 && s.pct(80, "refheavy") {
 			e = s.refHeavy(i)
 		} else {
